@@ -57,6 +57,16 @@ func TestClassifyURL(t *testing.T) {
 	if _, ok := HostQualified("http:/one-slash"); ok {
 		t.Error("http:/one-slash must be ambiguous")
 	}
+	for _, u := range []string{"//www.n:a-->bssolute", "http://exa mple.org/", "http://éxample.org/", "http://%65xample.org/", "//host:8x/"} {
+		if _, ok := HostQualified(u); ok {
+			t.Errorf("%q must be ambiguous", u)
+		}
+	}
+	for _, u := range []string{"http://example.org:8080/a", "//cdn.example.net/x", "http://[::1]:80/", "https://user:pw@example.org/", "HTTP://EXAMPLE.ORG"} {
+		if h, ok := HostQualified(u); !h || !ok {
+			t.Errorf("%q must be host-qualified", u)
+		}
+	}
 	if h, ok := HostQualified("mailto:a@example.org"); h || !ok {
 		t.Error("mailto")
 	}
